@@ -59,6 +59,10 @@ def cases(draw, tier):
             op['gap'] = draw(st.sampled_from([0.5, 1, 2, 4]))
         if draw(st.integers(0, 3)) == 0 and n:
             op['brk'] = draw(st.integers(1, n))
+        if 'brk' not in op and draw(st.integers(0, 2)) == 0:
+            # `results = first(...)` kept in a variable of the caller (an iterator that is kept *and* abandoned by `break`
+            # is not told so by Python: closing it is then the caller's job - not generated)
+            op['keep'] = True
     caller = {'name': 'cl', 'steps': ([{'op': 'sleep', 'd': draw(st.sampled_from([0, 0.5, 1]))}] if draw(st.booleans()) else [])
               + [op, {'op': 'sleep', 'd': 1}, {'op': 'sleep', 'd': 6}]}
     other = {'name': 'ot', 'steps': [{'op': 'sleep', 'd': 1}, {'op': 'sleep', 'd': 1}]}
@@ -305,6 +309,10 @@ def judge(out, case, it, oc, exc, ctx):
         for nm in names:
             evs = per.get(nm, ())
             late = [e for e in evs if e[0] > end_ev[0]]
+            if node.get('keep'):
+                # an iterator that the caller kept in a variable is closed when the caller's frame goes - right after the
+                # caller itself ended, in the same time step: the forced-close entries of the losers come that much later
+                late = [e for e in late if not (e[4] == end_ev[4] and (e[3] == 'fin' or (e[3] == 'exc' and e[5] == ('genexit',))))]
             if late:
                 out.fail('abort', 'ran_after_end', '%s logged %r after %s ended at seq %d t=%r;%s' % (
                     nm, late[0][2:5], node['op'], end_ev[0], end_ev[4], ctx))
